@@ -127,7 +127,18 @@ def simple_problem(rng):
     pr = P.gen_problem(rng, with_tree=False, labels=rng.choice([["A"], ["A", "B"], ["Plant A", "Plant B"]]))
     for i, s in enumerate(pr["streams"]):
         s["name"] = f"Stream {i+1}"
+    if pr["utilities"] and rng.random() < 0.5:
+        # optional numbers of a utility left out: None in the dictionary channels, an empty cell in CSV / workbook
+        for u in pr["utilities"]:
+            for k in ("t_target", "dt_cont", "price"):
+                if rng.random() < 0.5:
+                    u[k] = {"value": None, "units": {"t_target": "degC", "dt_cont": "degC", "price": "$/MWh"}[k]}
     return pr
+
+
+def _cell(x):
+    """What goes into a CSV / workbook cell: nothing for an unspecified value-with-unit number."""
+    return (x["value"] if isinstance(x, dict) else x)
 
 
 def summary(out):
@@ -158,7 +169,7 @@ def channels(problem, tmp: Path):
     units = {"t_supply": "degC", "t_target": "degC", "heat_flow": "kW", "dt_cont": "degC", "htc": "kW/m^2/K", "price": "$/MWh"}
     for rec in vu["streams"] + vu["utilities"]:
         for k, u in units.items():
-            if k in rec and rec[k] is not None:
+            if k in rec and rec[k] is not None and not isinstance(rec[k], dict):
                 rec[k] = {"value": rec[k], "units": u}
     run("value_with_unit", lambda: pinch_analysis_service(vu, "Project"))
     run("wrapper_from_json", lambda: PinchProblem.from_json(json.loads(json.dumps(problem))).target())
@@ -179,7 +190,7 @@ def channels(problem, tmp: Path):
         w.writerow(["Name", "Type", "Supply T", "Target T", "dT cont", "Price", "HTC", "Heat flow"])
         w.writerow(["", "", "degC", "degC", "degC", "$/MWh", "kW/m2/K", "kW"])
         for u in problem["utilities"]:
-            w.writerow([u["name"], u["type"], u["t_supply"], u["t_target"], u["dt_cont"], u["price"], u["htc"], u["heat_flow"]])
+            w.writerow([u["name"], u["type"], u["t_supply"], _cell(u["t_target"]), _cell(u["dt_cont"]), _cell(u["price"]), u["htc"], u["heat_flow"]])
     def csv_dir():
         pp = PinchProblem(); pp.load(d); return pp.target()
     def csv_tuple():
@@ -195,7 +206,7 @@ def channels(problem, tmp: Path):
         srows += [[s["zone"], s["name"], s["t_supply"], s["t_target"], s["heat_flow"], s["dt_cont"], s["htc"], None, None] for s in problem["streams"]]
         urows = [["Name", "Type", "Supply T", "Target T", "dT cont", "Price", "HTC", "Heat flow"],
                  [None, None, "degC", "degC", "degC", "$/MWh", "kW/m2/K", "kW"]]
-        urows += [[u["name"], u["type"], u["t_supply"], u["t_target"], u["dt_cont"], u["price"], u["htc"], u["heat_flow"]] for u in problem["utilities"]]
+        urows += [[u["name"], u["type"], u["t_supply"], _cell(u["t_target"]), _cell(u["dt_cont"]), _cell(u["price"]), u["htc"], u["heat_flow"]] for u in problem["utilities"]]
         with pd.ExcelWriter(xp, engine="openpyxl") as wr:
             pd.DataFrame(srows).to_excel(wr, sheet_name="Stream Data", header=False, index=False)
             pd.DataFrame(urows).to_excel(wr, sheet_name="Utility Data", header=False, index=False)
